@@ -56,7 +56,7 @@ def main():
                  'checker_cmd': '(skipped)', 'fallback': [], 'untranslatable': []}
     else:
         try:
-            proof = build.prepare(prop, args.tier, getattr(mod, 'EXTRA_TARGETS', ()))
+            proof = build.prepare(prop, args.tier, getattr(mod, 'EXTRA_TARGETS', ()), getattr(mod, 'PROP_MODULES', None))
         except Exception as e:  # infrastructure
             print(f"INFRASTRUCTURE ERROR during build: {e}")
             traceback.print_exc()
